@@ -8,6 +8,7 @@ pub mod grid;
 pub mod kernel;
 pub mod ops;
 pub mod probe;
+pub mod surface;
 
 pub use chain::{install_panic_hook, World};
 pub use dump::dump;
